@@ -78,6 +78,8 @@ structure Link where
   held : List Byte := []
   cShut : Bool := false     -- shutdown(SHUT_WR) was called on the client end / the server end
   sShut : Bool := false
+  cLate : Bool := false     -- this end's TcpConnection gave up its descriptor, close(2) pending until the end of the current loop pass
+  sLate : Bool := false
 deriving Repr
 
 /-- TcpConnector -/
@@ -142,6 +144,8 @@ structure N where
   sockFail : Nat := 0                 -- the next socket() / accept() calls fail with EMFILE, the next connects fail late
   acceptFail : Nat := 0
   lateFail : Nat := 0
+  connFail : Nat := 0                 -- the next connect() calls fail at once (ECONNREFUSED)
+  acceptAbort : Nat := 0              -- the next accept() calls fail with ECONNABORTED: the pending connection is gone
   uaf : Bool := false
 deriving Repr
 
@@ -222,7 +226,7 @@ deletes the buffered descriptor, at the end of the loop pass -/
 def N.closeS (n : N) (l : Nat) : N :=
   let k := n.link l
   if k.sOpen then
-    let n := n.setLink l { k with sOpen := false }
+    let n := n.setLink l { k with sOpen := false, sLate := true }
     if k.cOpen then n.pushLate (.eofC l) else n
   else n
 
@@ -230,7 +234,7 @@ def N.closeS (n : N) (l : Nat) : N :=
 def N.closeC (n : N) (l : Nat) : N :=
   let k := n.link l
   if k.cOpen then
-    let n := n.setLink l { k with cOpen := false }
+    let n := n.setLink l { k with cOpen := false, cLate := true }
     if k.sOpen ∧ k.tok.isSome then n.pushLate (.eofS l) else n
   else n
 
@@ -249,6 +253,9 @@ def N.closeCNow (n : N) (l : Nat) : N :=
     let n := n.setLink l { k with cOpen := false }
     if k.sOpen ∧ k.tok.isSome then n.push (.eofS l) else n
   else n
+
+/-- the end of a loop pass: the deferred tasks ran, the descriptors given up during the pass are closed -/
+def N.endPass (n : N) : N := { n with links := n.links.map fun k => { k with cLate := false, sLate := false } }
 
 def backlogMax : Nat := 8
 
@@ -271,6 +278,9 @@ def cnEnter (cfg : Cfg) (n : N) (w : Who) : N × Bool :=
     -- socket() fails (EMFILE).  C06-08: a failed attempt like any other; as found: return, nothing changes
     let n := { n with sockFail := n.sockFail - 1 }
     if cfg.fix3 then cnFail cfg n w else (n, false)
+  else if n.connFail > 0 then
+    -- connect() fails at once (ECONNREFUSED): onConnectFail()
+    cnFail cfg { n with connFail := n.connFail - 1 } w
   else if n.listening ∧ n.backlog.length ≤ backlogMax then
     let l := n.links.length
     let n := { n with links := n.links ++ [({ who := w } : Link)], backlog := n.backlog ++ [l] }
@@ -305,7 +315,8 @@ def svSend (n : N) (t : Nat) (_d : List Byte) : N × Bool :=
       if n.busy = some (l, true) then (n, false) else
       -- an empty payload still arms the write event (send-complete) but nothing arrives
       -- after shutdown(SHUT_WR) / towards a closed peer the write fails: dropped with a warning, no write event
-      (if (n.link l).cOpen ∧ ¬ (n.link l).sShut then (if _d = [] then n else n.push (.toC l _d)).push (.sentS l) else n, true)
+      -- (a peer that gave up its descriptor earlier in this pass is still open: the write succeeds)
+      (if ((n.link l).cOpen ∨ (n.link l).cLate) ∧ ¬ (n.link l).sShut then (if _d = [] then n else n.push (.toC l _d)).push (.sentS l) else n, true)
 
 def svDisconnect (n : N) (t : Nat) : N × Bool :=
   match svLookup n t with
@@ -327,7 +338,7 @@ def clSend (n : N) (i : Nat) (d : List Byte) : N × Bool :=
   let c := n.client i
   match c.st, c.link with
   | .connected, some l =>
-      (if (n.link l).sOpen ∧ ¬ (n.link l).cShut then (if d = [] then n else n.push (.toS l d)).push (.sentC l) else n, true)
+      (if ((n.link l).sOpen ∨ (n.link l).sLate) ∧ ¬ (n.link l).cShut then (if d = [] then n else n.push (.toS l d)).push (.sentC l) else n, true)
   | _, _ => (n, false)
 
 def clStart (cfg : Cfg) (n : N) (i : Nat) : N × Bool :=
@@ -509,6 +520,10 @@ def handle (cfg : Cfg) (n : N) : Msg → N
           if n.acceptFail > 0 then
             -- accept() fails (EMFILE): logged; the listening socket stays readable, the next pass tries again
             ({ n with acceptFail := n.acceptFail - 1 }).push .accept
+          else if n.acceptAbort > 0 then
+            -- accept() fails (ECONNABORTED): logged; the pending connection is gone, the others stay readable
+            let n := ({ n with acceptAbort := n.acceptAbort - 1, backlog := rest }).closeSNow l
+            if rest ≠ [] then n.push .accept else n
           else runCb cfg (.sv n.sv.issued) 0 (svAccept n l rest) n.sv.sConn
       | _, _ => n
   | .toS l d =>
@@ -597,6 +612,7 @@ def drain (cfg : Cfg) : Nat → N → N
             (absorb m n.qn).1)
       | [] =>
           -- end of a pass: the deferred tasks ran after the callbacks
+          let n := n.endPass
           if n.qn = [] ∧ n.qlate = [] then n
           else drain cfg fuel { n with q := (passOrder n (n.qn ++ n.qlate)).2, qn := [], qlate := [],
                                        lastFds := (passOrder n (n.qn ++ n.qlate)).1 }
@@ -618,7 +634,7 @@ inductive Op where
   | rawConn | rawSend (d : List Byte) | rawClose | rawHold (b : Bool)
   | adv (ms : Nat)
   | budget (k : Nat)                     -- how many `more` sends the callbacks may make
-  | fault (kind : Nat) (k : Nat)         -- the next k socket() (0) / accept() (1) calls fail, connects fail late (2); 3 = connect reports EINPROGRESS (no effect)
+  | fault (kind : Nat) (k : Nat)         -- the next k socket() (0) / accept() (1, EMFILE) calls fail, connects fail late (2); 3 = connect reports EINPROGRESS (no effect); the next k connect() calls fail at once with ECONNREFUSED (4); the next k accept() calls fail with ECONNABORTED and drop the pending connection (5)
 deriving Repr
 
 /-- insertion by (deadline, arming order) -/
@@ -702,7 +718,7 @@ def step (cfg : Cfg) (n : N) : Op → N × Bool
       else (n, false)
   | .rawSend d =>
       match n.rawLink with
-      | some l => (if (n.link l).sOpen then n.push (.toS l d) else n, (n.link l).sOpen)
+      | some l => (if (n.link l).sOpen || (n.link l).sLate then n.push (.toS l d) else n, (n.link l).sOpen || (n.link l).sLate)
       | none => (n, false)
   | .rawClose =>
       match n.rawLink with
@@ -721,6 +737,8 @@ def step (cfg : Cfg) (n : N) : Op → N × Bool
         | 0 => { n with sockFail := k }
         | 1 => { n with acceptFail := k }
         | 2 => { n with lateFail := k }
+        | 4 => { n with connFail := k }
+        | 5 => { n with acceptAbort := k }
         | _ => n, true)
 
 /-- operations the harness accepts in this state -/
